@@ -47,6 +47,24 @@ def _draw_calls(f, method):
     return [c for c in walk_no_nested(f.node) if isinstance(c, ast.Call) and isinstance(c.func, ast.Attribute) and c.func.attr == method and isinstance(c.func.value, ast.Name) and c.func.value.id == "target_axes"]
 
 
+def _closed_kw(f, callee, kwname, pos=None):
+    """normal forms of the argument `kwname` (or positional slot `pos`) of every call of <x>.callee(...) / callee(...) in f: path-sensitive, temporaries written out"""
+    from ..termform import path_exprs, subst
+
+    def pick(st):
+        own = [st] if not hasattr(st, "body") else [x for x in (getattr(st, "test", None), getattr(st, "iter", None)) if x is not None]
+        out = []
+        for o in own:
+            for c in ast.walk(o):
+                if isinstance(c, ast.Call) and (c.func.attr if isinstance(c.func, ast.Attribute) else getattr(c.func, "id", None)) == callee:
+                    v = common.kwarg(c, kwname, pos)
+                    if v is not None:
+                        out.append(v)
+        return out
+
+    return [Normalizer({}).norm(subst(e, env)).canon() for conds, e, env in path_exprs(f.node, pick)]
+
+
 def run(eng, R):
     p = eng.p
     R.rule("A-role", "adapter properties read what their names say: *_x* never reads a y attribute of the fit and vice versa (axis), *err properties read uncertainties / half widths and "
@@ -127,7 +145,7 @@ def run(eng, R):
     ok = len(calls) == 1
     if ok:
         pos, kw = _call_args(calls[0])
-        ok = pos == ["self.data_x", "self.data_y"] and kw.get("xerr") == "self.data_xerr" and kw.get("yerr") == "_yerr" and "_yerr = self._get_total_error(error_contributions)" in _txt(f.node)
+        ok = pos == ["self.data_x", "self.data_y"] and kw.get("xerr") == "self.data_xerr" and _closed_kw(f, "errorbar", "yerr") == [norm_spec("self._get_total_error(error_contributions)").canon()]
     R.ob("A-draw", "XYPlotAdapter.plot_data", ok, (f.file, f.lineno), "data markers at (data_x, data_y) with xerr=data_xerr and yerr=total uncertainty")
     for an in ("HistPlotAdapter", "IndexedPlotAdapter"):
         f = get_func(p, an, "plot_data")
@@ -142,10 +160,10 @@ def run(eng, R):
                 good.append(False)
                 continue
             if full:
-                good.append(kw.get("xerr") == "self.data_xerr" and kw.get("yerr") == "_yerr")
+                good.append(kw.get("xerr") == "self.data_xerr" and "yerr" in kw)
             else:
-                good.append(kw.get("yerr") == "_yerr")
-        forms = [x.canon() for ct, x, _ in extract(f, "assign", "_yerr")]
+                good.append("yerr" in kw)
+        forms = _closed_kw(f, "errorbar", "yerr")
         gauss = "(self._fit._cost_function).get_uncertainty_gaussian_approximation(self.data_y)"
         want_full = "(%s^2 + self.data_yerr^2)^1/2" % gauss
         okf = want_full in forms and all(x in (want_full, gauss) for x in forms)
@@ -157,7 +175,7 @@ def run(eng, R):
     R.ob("A-draw", "XYPlotAdapter.plot_model_line", ok, (f.file, f.lineno), "the model curve must be drawn at (model_line_x, model_line_y)")
     f = get_func(p, "HistPlotAdapter", "plot_model")
     src = _txt(f.node)
-    ok = "x=self.model_x" in src and "height=self.model_y" in src and "width=self.model_xerr * 2.0 * _sf" in src
+    ok = "x=self.model_x" in src and "height=self.model_y" in src and _closed_kw(f, "dict", "width") == [norm_spec("self.model_xerr * 2.0 * kwargs.pop('bar_width_scale_factor')").canon()]
     R.ob("A-draw", "HistPlotAdapter.plot_model", ok, (f.file, f.lineno), "model bars at model_x with height model_y and the bin width")
     f = get_func(p, "IndexedPlotAdapter", "plot_model")
     src = _txt(f.node)
@@ -269,12 +287,13 @@ def run(eng, R):
         ok, why = fresh.check_site(eng, f, c)
         R.ob("F-info", "Plot._get_fit_info:refresh", ok, (f.file, c.lineno), "the info box prints stored parameter numbers: %s" % why)
     src = _txt(gi.node)
-    need = {"ndf": "_ndf = plot_adapter._fit.ndf", "cost": "_cost_function_value = plot_adapter._fit.cost_function_value", "gof": "_gof_value = plot_adapter._fit.goodness_of_fit",
-            "cost function": "_cost_func = plot_adapter._fit._cost_function", "probability": "_chi2_pf = ParameterFormatter('chi2', plot_adapter._fit.chi2_probability)",
-            "multi ndf": "_multi_ndf = self._multifit.ndf", "multi cost": "_multi_cost_function_value = self._multifit.cost_function_value", "multi gof": "_multi_gof = self._multifit.goodness_of_fit",
-            "multi probability": "_chi2_pf = ParameterFormatter('chi2', self._multifit.chi2_probability)"}
+    # the quantity is read from the fit that the box describes (into a local or directly at its use)
+    need = {"ndf": "plot_adapter._fit.ndf", "cost": "plot_adapter._fit.cost_function_value", "gof": "plot_adapter._fit.goodness_of_fit",
+            "cost function": "plot_adapter._fit._cost_function", "probability": "ParameterFormatter('chi2', plot_adapter._fit.chi2_probability)",
+            "multi ndf": "self._multifit.ndf", "multi cost": "self._multifit.cost_function_value", "multi gof": "self._multifit.goodness_of_fit",
+            "multi probability": "ParameterFormatter('chi2', self._multifit.chi2_probability)"}
     for k, w in need.items():
-        R.ob("F-info", "Plot._get_fit_info:%s" % k, w in src, (gi.file, gi.lineno), "the info box must read %s from the fit it describes: `%s`" % (k, w))
+        R.ob("F-info", "Plot._get_fit_info:%s" % k, common.Src(str(src)).like(w), (gi.file, gi.lineno), "the info box must read %s from the fit it describes: `%s`" % (k, w))
     n_fmt = 0
     for c in walk_no_nested(gi.node):
         if isinstance(c, ast.Call) and isinstance(c.func, ast.Attribute) and c.func.attr == "get_formatted" and "formatter" in _txt(c.func.value):
